@@ -43,6 +43,53 @@ func (p *Program) pollFuncs() []*ssa.Function {
 	return out
 }
 
+// errPollFuncs: package-level functions func(chan struct{}) error that poll (directly, or through a bool
+// poll) and answer with the closed error exactly when the channel is closed: every return is either
+// seg.ErrClosed or nil, both occur (`errIfClosed`).
+func (p *Program) errPollFuncs(boolPolls map[*ssa.Function]bool) []*ssa.Function {
+	var out []*ssa.Function
+	for _, fn := range p.ZapFuncs {
+		if fn.Parent() != nil || fn.Signature.Recv() != nil || len(fn.Blocks) == 0 {
+			continue
+		}
+		sig := fn.Signature
+		if sig.Params().Len() != 1 || sig.Results().Len() != 1 || !isErrorType(sig.Results().At(0).Type()) {
+			continue
+		}
+		if _, ok := sig.Params().At(0).Type().Underlying().(*types.Chan); !ok {
+			continue
+		}
+		polls := false
+		eachInstr(fn, func(_ *ssa.BasicBlock, in ssa.Instruction) {
+			if sel, ok := in.(*ssa.Select); ok && !sel.Blocking {
+				polls = true
+			}
+			if cs, ok := in.(ssa.CallInstruction); ok && boolPolls[staticCallee(cs)] && len(cs.Common().Args) == 1 && cs.Common().Args[0] == ssa.Value(fn.Params[0]) {
+				polls = true
+			}
+		})
+		if !polls {
+			continue
+		}
+		nClosed, nNil, other := 0, 0, 0
+		for _, ret := range returnsOf(fn) {
+			v := returnedValue(ret, 0)
+			switch {
+			case isErrClosedValue(v):
+				nClosed++
+			case isNilConst(v):
+				nNil++
+			default:
+				other++
+			}
+		}
+		if nClosed > 0 && nNil > 0 && other == 0 {
+			out = append(out, fn)
+		}
+	}
+	return out
+}
+
 func isErrClosedValue(v ssa.Value) bool {
 	u, ok := v.(*ssa.UnOp)
 	if !ok || u.Op != token.MUL {
@@ -94,6 +141,11 @@ func ruleR8() *Rule {
 			for _, f := range polls {
 				isPoll[f] = true
 			}
+			// polls that answer with the closed error themselves
+			isErrPoll := map[*ssa.Function]bool{}
+			for _, f := range c.p.errPollFuncs(isPoll) {
+				isErrPoll[f] = true
+			}
 			mayWrite := c.p.mayWriteFuncs()
 			type pollSite struct {
 				site  *ssa.Call
@@ -107,8 +159,11 @@ func ruleR8() *Rule {
 			for _, fn := range c.p.ZapFuncs {
 				for _, cs := range callSites(fn) {
 					call, ok := cs.(*ssa.Call)
-					if !ok || !isPoll[staticCallee(cs)] {
+					if !ok || !(isPoll[staticCallee(cs)] || isErrPoll[staticCallee(cs)]) {
 						continue
+					}
+					if isPoll[staticCallee(cs)] && isErrPoll[fn] {
+						continue // the poll inside the error-poll helper: judged by the shape of the helper
 					}
 					total++
 					fname := funcShortName(fn)
@@ -118,10 +173,26 @@ func ruleR8() *Rule {
 					var iff *ssa.If
 					neg := false
 					okUse := true
+					errPoll := isErrPoll[staticCallee(cs)]
 					for _, r := range *call.Referrers() {
 						switch x := r.(type) {
 						case *ssa.If:
 							iff = x
+						case *ssa.BinOp:
+							// `if cerr := errIfClosed(ch); cerr != nil { return ..., cerr }`
+							if errPoll && (x.Op == token.NEQ || x.Op == token.EQL) && (isNilConst(x.X) || isNilConst(x.Y)) {
+								for _, r2 := range *x.Referrers() {
+									if i2, ok := r2.(*ssa.If); ok {
+										iff, neg = i2, x.Op == token.EQL
+									}
+								}
+							} else {
+								okUse = false
+							}
+						case *ssa.Return, *ssa.Phi, *ssa.Store:
+							if !errPoll {
+								okUse = false
+							}
 						case *ssa.UnOp:
 							if x.Op == token.NOT {
 								for _, r2 := range *x.Referrers() {
@@ -153,7 +224,7 @@ func ruleR8() *Rule {
 						continue
 					}
 					ev, _ := errorOfReturn(ret)
-					if ev == nil || !isErrClosedValue(ev) {
+					if ev == nil || !(isErrClosedValue(ev) || (errPoll && (sameValue(ev, call) || sameValue(resolveLoad(ev), call)))) {
 						c.bad(key+"/returns-closed-error", c.pos(ret), "the closed branch returns the closed error (seg.ErrClosed)", "the return on the cancelled branch does not return seg.ErrClosed: the caller would not run its cleanup / would report success for an incomplete file", "exit: "+describeInstr(c.p, ret))
 						continue
 					}
